@@ -1286,6 +1286,14 @@ def run_display(ob, exq, header_rx, module, value, pc):
 def c32(ctx):
     n = z3.Int("n")
     MAXL = 28
+    ctx.executor("dev").divcache_on = True
+    try:
+        _c32(ctx, n, MAXL)
+    finally:
+        ctx.executor("dev").divcache_on = False
+
+
+def _c32(ctx, n, MAXL):
 
     PRINT_LEN = 5
     print_max = sum(26 ** i for i in range(1, PRINT_LEN + 1)) - 1     # last name with PRINT_LEN letters
